@@ -398,7 +398,7 @@ def kmerQuery (x : Ctx) : Q String := do
   let some st := storageOf stTok | throw (.badOp "storage")
   let usizeOnly := ["tryseq", "deref", "toseq", "int", "fromint", "rev", "revmut", "eqstr", "eqseq", "iterhash"]
   let dnaOnly := ["comp", "revcomp", "compmut", "revcompmut", "canon"]
-  let ordOnly := ["cmp", "minmax", "minafter"]
+  let ordOnly := ["cmp", "minmax", "minafter", "minnth"]
   let c := x.c
   let fits (sb : Nat) : Bool := 1 ≤ k ∧ k * c.width ≤ sb
   if usizeOnly.contains op then
@@ -464,6 +464,18 @@ def kmerQuery (x : Ctx) : Q String := do
       let a ← qlift num; let b ← qlift num
       let a := a % 2^st.bits; let b := b % 2^st.bits
       pure s!"{ordStr (compare a b)} {boolStr (a < b)} {boolStr (a ≤ b)} true"
+    | "minnth" => do
+      let n ← qlift num
+      let s ← qlift parseS; let bs ← qr (evalS x s)
+      if st ≠ .usize then throw .unsup
+      if k = 0 ∨ k > 64 then throw .unsup
+      if ¬ fits 64 then throw .unsup
+      let ks ← qres (seqRes (Kmer.kmers x.p c k bs))
+      let f := match ks[n]? with | some m => toString m | none => "none"
+      let rest := ks.drop (n + 1)
+      let mn := match rest.min? with | some m => toString m | none => "none"
+      let mx := match rest.max? with | some m => toString m | none => "none"
+      pure s!"{f} {mn} {mx} {rest.length}"
     | "minafter" => do
       let n ← qlift num
       let s ← qlift parseS; let bs ← qr (evalS x s)
